@@ -110,13 +110,24 @@ def _check_scalar_variable(value, allow_zero=False, variable_name='lam', two_d=F
     else:
         desired_length = 1
         fill_scalar = False
-    output = _check_scalar(value, desired_length, fill_scalar=fill_scalar, **asarray_kwargs)[0]
     if allow_zero:
         operation = np.less
         text = 'greater than or equal to'
     else:
         operation = np.less_equal
         text = 'greater than'
+    dtype = asarray_kwargs.get('dtype', None)
+    if dtype is not None and np.issubdtype(dtype, np.integer):
+        # casting to an integer truncates values toward 0, which would let negative
+        # fractions pass as 0, and fails for infinity, so first check the values as floats
+        float_output = _check_scalar(
+            value, desired_length, fill_scalar=fill_scalar, **{**asarray_kwargs, 'dtype': float}
+        )[0]
+        if np.any(operation(float_output, 0)):
+            raise ValueError(f'{variable_name} must be {text} 0')
+        elif np.any(np.isinf(float_output)):
+            raise ValueError(f'{variable_name} must be finite')
+    output = _check_scalar(value, desired_length, fill_scalar=fill_scalar, **asarray_kwargs)[0]
     if np.any(operation(output, 0)):
         raise ValueError(f'{variable_name} must be {text} 0')
 
